@@ -7,7 +7,7 @@
     anchor (what the v5/v6 wire format can express). *)
 From V.Lib Require Import Base Hex.
 From V.Gen Require Import C04Consts.
-From V.C04 Require Import Model Spec SpecEq DigEq Corr Wf Enc Proofs Proofs2 SigIff Bridge.
+From V.C04 Require Import Model ModelV4 Spec SpecEq SpecV4 DigEq Corr Wf Enc Proofs Proofs2 SigIff ProofsV4 Bridge.
 Local Open Scope N_scope.
 
 (** Equal txid pre-images: equal effecting data (header, every input, output, value, note
@@ -145,6 +145,53 @@ Theorem C04_bridge : forall c, modelled c = true -> wf_case c = true -> run_case
 Proof. exact bridge. Qed.
 Theorem C04_dig_eqb_spec : forall a b, dig_eqb a b = true <-> a = b.
 Proof. exact dig_eqb_spec. Qed.
+
+(** * v3 / v4 (ZIP 143 / ZIP 243) *)
+
+(** The ZIP 143/243 signature-hash pre-image is equal exactly when the view ([ModelV4.view4_of]:
+    header, hash type, outpoints unless ANYONECANPAY, sequences only for plain ALL, the outputs
+    the hash type covers, JoinSplits with joinSplitPubKey, Sapling spends without spendAuthSig,
+    full Sapling outputs, valueBalance, and the signed input's outpoint, sequence, script code and
+    value) is equal. *)
+Theorem C04_v4_sighash_tree_iff_view : forall t t' i i' d d',
+  wf_tx4 t = true -> wf_tx4 t' = true -> wf_input4 i -> wf_input4 i' ->
+  sighash4_tree t i = Some d -> sighash4_tree t' i' = Some d' ->
+  (d = d' <-> view4_of t i = view4_of t' i').
+Proof. exact sighash4_iff_wf. Qed.
+
+(** A v3/v4 transparent signature hash commits to the hash type, the coin's value, the script
+    code, the signed input's outpoint and sequence, and the header. *)
+Theorem C04_v4_sighash_commits_to_coin : forall t t' ht ht' idx idx' v v' code code' d,
+  wf_tx4 t = true -> wf_tx4 t' = true -> u32 ht -> u32 ht' -> u63 v -> u63 v' -> short code -> short code' ->
+  sighash4_tree t (Transp4 ht idx v code) = Some d -> sighash4_tree t' (Transp4 ht' idx' v' code') = Some d ->
+  ht = ht' /\ v = v' /\ code = code'
+  /\ option_map in_eff_of (nth_error (vin4 t) idx) = option_map in_eff_of (nth_error (vin4 t') idx')
+  /\ t4_ver t = t4_ver t' /\ t4_branch t = t4_branch t' /\ t4_lock t = t4_lock t' /\ t4_expiry t = t4_expiry t'.
+Proof. exact sighash4_commits. Qed.
+
+(** The exclusions are exactly those of ZIP 143/243: hashPrevouts is blank iff ANYONECANPAY;
+    hashSequence is blank iff ANYONECANPAY, SINGLE or NONE; hashOutputs is all outputs, blank
+    (NONE), or the output at the signed index (SINGLE; blank without one). *)
+Theorem C04_v4_sighash_exclusions : forall t i w, view4_of t i = Some w ->
+  let ht := hash_type4 i in
+  (w_prev w = None <-> flag_acp ht = true)
+  /\ (w_seq w = None <-> flag_acp ht || flag_single ht || flag_none ht = true)
+  /\ (flag_single ht = false -> flag_none ht = false -> w_outs w = Some (vout4 t))
+  /\ (flag_single ht = false -> flag_none ht = true -> w_outs w = None)
+  /\ (flag_single ht = true -> w_outs w = match i with
+                                          | Transp4 _ idx _ _ => match nth_error (vout4 t) idx with Some o => Some [o] | None => None end
+                                          | Shielded4 => None end).
+Proof. exact view4_exclusions. Qed.
+
+(** Bridge for v3/v4 mutation pairs: if equality of the implementation's signature hashes
+    coincides with equality of the model's pre-images, it coincides with equality of the views. *)
+Theorem C04_bridge_v4_mut : forall f t t' o o',
+  wf_case (CV4Mut f t t' o o') = true -> run_case (CV4Mut f t t' o o') = true -> mut4_sigs_ok t t' o o' = true.
+Proof. exact bridge_v4_mut. Qed.
+Theorem C04_tx4_eqb_spec : forall a b, tx4_eqb a b = true <-> a = b.
+Proof. exact tx4_eqb_spec. Qed.
+Theorem C04_oview4_eqb_spec : forall a b, oview4_eqb a b = true <-> a = b.
+Proof. exact oview4_eqb_spec. Qed.
 
 (** The cached evaluation used by the correspondence is the evaluation of the tree. *)
 Theorem C04_eval_txid_cached : forall t, eval (txid_from t (eval_parts (parts_of t))) = eval (txid_tree t).
